@@ -56,6 +56,14 @@ func vbiServiceHasLines(id uint8) bool {
 	return id == 1 || id == 2 || id == 4 || id == 5 || id == 6 || id == 7
 }
 
+// VBIReservedBytes is the number of reserved bytes the reference encoding gives a VBI data service whose id has no line entries.
+func VBIReservedBytes(id uint8) int {
+	if vbiServiceHasLines(id) {
+		return 0
+	}
+	return int(id>>2) % 4
+}
+
 func badf(format string, a ...any) error {
 	return fmt.Errorf("%w: %s", ErrBadDescriptor, fmt.Sprintf(format, a...))
 }
@@ -375,7 +383,17 @@ func encodeBody(w *W, d *astits.Descriptor) error {
 					if len(s.Descriptors) != 0 {
 						e.fail("data_service_id %d cannot carry line descriptors", s.DataServiceID)
 					}
-					e.u("data_service_descriptor_length", 0, 8)
+					// the bytes of such a service are reserved: a decoder steps over them and keeps no line entry. The reference
+					// encoding carries VBIReservedBytes(id) of them (a fixed function of the id, so that sizes stay predictable)
+					n := VBIReservedBytes(s.DataServiceID)
+					e.u("data_service_descriptor_length", uint64(n), 8)
+					for k := 0; k < n; k++ {
+						v := uint64(0xff)
+						if e.w.Rnd != nil {
+							v = uint64(e.w.Rnd.UintN(256))
+						}
+						e.u("reserved", v, 8)
+					}
 					continue
 				}
 				if len(s.Descriptors) > 255 {
